@@ -30,6 +30,8 @@ type c17MeasureParams struct {
 	Desc    string `json:"desc"`
 	// Interrupt: the run is interrupted (context cancelled) from inside its last iteration, before that body's work
 	Interrupt bool `json:"interrupt,omitempty"`
+	// Combine: the scenario is registered through f1.CombineScenarios (with a passing companion)
+	Combine bool `json:"combine,omitempty"`
 }
 
 type c17AggParams struct {
@@ -62,7 +64,8 @@ func init() {
 					p.Kinds = append(p.Kinds, pick(r, engine.BPass, engine.BPass, engine.BFail, engine.BFailNow, engine.BRequire, engine.BPanicString, engine.BPanicError, engine.BFatal))
 				}
 				p.Interrupt = i%4 == 1
-				p.Desc = fmt.Sprintf("mode=%s n=%d tick=%d workers=%d interrupted=%v", p.Mode, p.N, p.Tick, p.Conc, p.Interrupt)
+				p.Combine = i%4 == 2 || i%8 == 5
+				p.Desc = fmt.Sprintf("mode=%s n=%d tick=%d workers=%d interrupted=%v combined=%v", p.Mode, p.N, p.Tick, p.Conc, p.Interrupt, p.Combine)
 				cse := core.MkCase("C17", "measure", i, seed, p)
 				cse.Race = i%2 == 0
 				cse.Procs = pick(r, 1, 2, 16)
@@ -221,6 +224,9 @@ func c17Measure(c *core.Case, o *core.Outcome) {
 	}
 	spec.MaxIterations = uint64(p.N)
 	spec.IgnoreDropped = true
+	if p.Combine {
+		spec.Combine = 2
+	}
 	var inst *metrics.Metrics
 	if c.Seed%2 == 0 || p.N%2 == 0 {
 		// a first run of the same scenario on the same metrics instance: the exported durations of the
